@@ -1,9 +1,22 @@
 import Autd3.Model.Fw
 import Autd3.Model.Wire
+import Autd3.Lemmas.P02ClearObs
+import Autd3.Lemmas.P02Frames
+import Autd3.Lemmas.P02Mod
+import Autd3.Lemmas.P02Stm
+import Autd3.Lemmas.P02DefaultsWire
 /-!
 # C02 — device state depends on the last datagram per resource, not on history
 First layer: the three copies of the default pulse-width table agree (regenerated from the
-sources on every run), and the BEGIN frame of every multi-frame write resets its cursor and page.
+sources on every run).  Second layer (unbounded, over the firmware model `Fw` and the read-back model
+`Obs`): `Clear` installs the power-on observable state from EVERY well-formed state; frame conditions
+of the single-frame configuration handlers; the BEGIN frame of a modulation write resets the write
+cursor, and a single-frame modulation is history independent.
+
+Definitions used in the statements (all in `Lemmas/P02*.lean`): `WF` (array sizes, `numTr ≤ 249`,
+swap-chain dividers/cycles non-zero, the CPU flag word never holds the MOD_SET/STM_SET request bits),
+`PowerOnObs` (the list of observables with their power-on values), `clearSwap` (what `Clear` does to a
+swap chain), `modSegOf` (segment bit of a modulation frame).
 -/
 namespace Autd3.C02
 open Autd3 Autd3.Fw Autd3.Gen
@@ -27,5 +40,464 @@ the table is symmetric under the identity `sin²+cos²=1`: entries `i` and `j` w
 `T[i] + T[j] ≈ 256`. Proved part: the end points. (`pwe_default_closed_form` over ℝ is not proved; see DESIGN.) -/
 theorem default_table_endpoints_partial : Tables.drvAsin 0 = 0 ∧ Tables.drvAsin 255 = 256 ∧ Tables.drvAsin 128 = 86 := by
   decide +kernel
+
+
+/-! ## second layer: Clear -/
+open Autd3.P02
+
+/-- **Clear installs the power-on observable state** (absolute form). -/
+theorem clear_installs (s : State) (h : WF s) :
+    ∃ s', Fw.clear s #[] = .ok (s', Cpu.NO_ERR) ∧ WF s' ∧ PowerOnObs s' ∧
+      s'.numTr = s.numTr ∧ s'.dcSysTime = s.dcSysTime ∧
+      s'.modSwap = clearSwap s.modSwap s.dcSysTime 2 ∧ s'.stmSwap = clearSwap s.stmSwap s.dcSysTime 1 :=
+  ⟨clearResult s, clear_eq s h, wf_clearResult s h,
+    powerOnObs_of_cleared (cleared_clearResult s h) h.numTr, (clearResult_kept s).2.2.2.2.2.2.2.2.2.2.2.1,
+    (clearResult_kept s).2.2.2.2.2.2.2.2.2.2.2.2, modSwap_clearResult s h.ctl, stmSwap_clearResult s h.ctl⟩
+
+theorem clear_resets (s : State) (h : WF s) :
+    ∃ s' p, Fw.clear s #[] = .ok (s', Cpu.NO_ERR) ∧ Fw.new s.numTr s.dcSysTime = .ok p ∧
+      (∀ seg, seg ≤ 1 →
+        Obs.modBuffer s' seg = Obs.modBuffer p seg ∧ Obs.modDiv s' seg = Obs.modDiv p seg ∧
+        Obs.modCycle s' seg = Obs.modCycle p seg ∧ Obs.modRep s' seg = Obs.modRep p seg ∧
+        Obs.isStmGainMode s' seg = Obs.isStmGainMode p seg ∧ Obs.stmDiv s' seg = Obs.stmDiv p seg ∧
+        Obs.stmCycle s' seg = Obs.stmCycle p seg ∧ Obs.stmRep s' seg = Obs.stmRep p seg ∧
+        Obs.drivesAt s' seg 0 = Obs.drivesAt p seg 0) ∧
+      Obs.reqModSeg s' = Obs.reqModSeg p ∧ Obs.modTransition s' = Obs.modTransition p ∧
+      Obs.reqStmSeg s' = Obs.reqStmSeg p ∧ Obs.stmTransition s' = Obs.stmTransition p ∧
+      Obs.silencerUpdateRate s' = Obs.silencerUpdateRate p ∧
+      Obs.silencerCompletionSteps s' = Obs.silencerCompletionSteps p ∧
+      Obs.silencerFixedUpdateRateMode s' = Obs.silencerFixedUpdateRateMode p ∧ s'.strict = p.strict ∧
+      Obs.pweTable s' = Obs.pweTable p ∧ Obs.phaseCorrection s' = Obs.phaseCorrection p ∧
+      Obs.debugTypes s' = Obs.debugTypes p ∧ Obs.debugValues s' = Obs.debugValues p ∧
+      Obs.isForceFan s' = Obs.isForceFan p ∧ s'.readsFpgaState = p.readsFpgaState ∧ s'.portA = p.portA ∧
+      Obs.currentModSeg s' = Obs.currentModSeg p ∧ Obs.currentStmSeg s' = Obs.currentStmSeg p ∧
+      s'.modSwap.state = p.modSwap.state ∧ s'.modSwap.stop = p.modSwap.stop ∧
+      s'.modSwap.extMode = p.modSwap.extMode ∧ s'.modSwap.mode = p.modSwap.mode ∧
+      s'.modSwap.sysTime = p.modSwap.sysTime ∧ s'.modSwap.freqDiv.1 = p.modSwap.freqDiv.1 ∧
+      s'.modSwap.cycle.1 = p.modSwap.cycle.1 ∧ s'.modSwap.ticOff.1 = p.modSwap.ticOff.1 ∧
+      s'.stmSwap.state = p.stmSwap.state ∧ s'.stmSwap.stop = p.stmSwap.stop ∧
+      s'.stmSwap.extMode = p.stmSwap.extMode ∧ s'.stmSwap.mode = p.stmSwap.mode ∧
+      s'.stmSwap.sysTime = p.stmSwap.sysTime ∧ s'.stmSwap.freqDiv.1 = p.stmSwap.freqDiv.1 ∧
+      s'.stmSwap.cycle.1 = p.stmSwap.cycle.1 ∧ s'.stmSwap.ticOff.1 = p.stmSwap.ticOff.1 := by
+  have hp := wf_preClear s.numTr s.dcSysTime h.numTr
+  have a := powerOnObs_of_cleared (cleared_clearResult s h) h.numTr
+  have b := powerOnObs_of_cleared (cleared_clearResult _ hp) h.numTr
+  have ca := cleared_clearResult s h
+  have cb := cleared_clearResult _ hp
+  have n1 : (clearResult s).numTr = s.numTr := (clearResult_kept s).2.2.2.2.2.2.2.2.2.2.2.1
+  have n2 : (clearResult (preClear s.numTr s.dcSysTime)).numTr = s.numTr :=
+    (clearResult_kept (preClear s.numTr s.dcSysTime)).2.2.2.2.2.2.2.2.2.2.2.1
+  have t1 : (clearResult s).dcSysTime = s.dcSysTime := (clearResult_kept s).2.2.2.2.2.2.2.2.2.2.2.2
+  have t2 : (clearResult (preClear s.numTr s.dcSysTime)).dcSysTime = s.dcSysTime :=
+    (clearResult_kept (preClear s.numTr s.dcSysTime)).2.2.2.2.2.2.2.2.2.2.2.2
+  refine ⟨clearResult s, clearResult (preClear s.numTr s.dcSysTime), clear_eq s h, new_eq _ _ h.numTr, ?_,
+    by rw [a.reqModSeg, b.reqModSeg], by rw [a.modTransition, b.modTransition],
+    by rw [a.reqStmSeg, b.reqStmSeg], by rw [a.stmTransition, b.stmTransition],
+    by rw [a.silRate, b.silRate], by rw [a.silSteps, b.silSteps], by rw [a.silFixed, b.silFixed],
+    by rw [a.strict, b.strict], by rw [a.pwe, b.pwe], by rw [a.phaseCorr, b.phaseCorr, n1, n2],
+    by rw [a.debugTypes, b.debugTypes], by rw [a.debugValues, b.debugValues],
+    by rw [a.forceFan, b.forceFan], by rw [a.reads, b.reads], by rw [a.portA, b.portA],
+    by rw [a.curMod, b.curMod], by rw [a.curStm, b.curStm],
+    by rw [ca.modSwap.state, cb.modSwap.state], by rw [ca.modSwap.stop, cb.modSwap.stop],
+    by rw [ca.modSwap.extMode, cb.modSwap.extMode], by rw [ca.modSwap.mode, cb.modSwap.mode],
+    by rw [ca.modSwap.sysTime, cb.modSwap.sysTime, t1, t2], by rw [ca.modSwap.freqDiv0, cb.modSwap.freqDiv0],
+    by rw [ca.modSwap.cycle0, cb.modSwap.cycle0], by rw [ca.modSwap.ticOff0, cb.modSwap.ticOff0],
+    by rw [ca.stmSwap.state, cb.stmSwap.state], by rw [ca.stmSwap.stop, cb.stmSwap.stop],
+    by rw [ca.stmSwap.extMode, cb.stmSwap.extMode], by rw [ca.stmSwap.mode, cb.stmSwap.mode],
+    by rw [ca.stmSwap.sysTime, cb.stmSwap.sysTime, t1, t2], by rw [ca.stmSwap.freqDiv0, cb.stmSwap.freqDiv0],
+    by rw [ca.stmSwap.cycle0, cb.stmSwap.cycle0], by rw [ca.stmSwap.ticOff0, cb.stmSwap.ticOff0]⟩
+  intro seg hseg
+  refine ⟨by rw [a.modBuffer seg hseg, b.modBuffer seg hseg], by rw [a.modDiv seg hseg, b.modDiv seg hseg],
+    by rw [a.modCycle seg hseg, b.modCycle seg hseg], by rw [a.modRep seg hseg, b.modRep seg hseg],
+    by rw [a.stmGain seg hseg, b.stmGain seg hseg], by rw [a.stmDiv seg hseg, b.stmDiv seg hseg],
+    by rw [a.stmCycle seg hseg, b.stmCycle seg hseg], by rw [a.stmRep seg hseg, b.stmRep seg hseg],
+    by rw [a.drives seg hseg, b.drives seg hseg, n1, n2]⟩
+
+/-- what `Clear` does NOT reset (said explicitly): `synchronized`, the latched `numFoci`, `gainStmMode`,
+the FociSTM write cursor `stmWrite`, the transition latches, `readsStore`/`isRxDataUsed` (a version query in
+flight stays in flight), and the registers FPGA_STATE, VERSION_NUM_*, STM_SOUND_SPEED0/1, STM_NUM_FOCI0/1 —
+the last four are dead while both segments are in gain mode, which is why they are not observables of
+`clear_resets`. -/
+theorem clear_keeps (s : State) (h : WF s) :
+    ∃ s', Fw.clear s #[] = .ok (s', Cpu.NO_ERR) ∧
+      s'.synchronized = s.synchronized ∧ s'.numFoci = s.numFoci ∧ s'.gainStmMode = s.gainStmMode ∧
+      s'.stmWrite = s.stmWrite ∧ s'.modTrMode = s.modTrMode ∧ s'.stmTrMode = s.stmTrMode ∧
+      s'.readsStore = s.readsStore ∧ s'.isRxDataUsed = s.isRxDataUsed ∧ s'.rxData = s.rxData ∧
+      s'.lastMsgId = s.lastMsgId ∧ s'.ack = s.ack ∧
+      (∀ seg, seg ≤ 1 → Obs.soundSpeed s' seg = Obs.soundSpeed s seg ∧ Obs.numFoci s' seg = Obs.numFoci s seg) ∧
+      Obs.fpgaStateReg s' = Obs.fpgaStateReg s ∧
+      reg s' Cpu.ADDR_VERSION_NUM_MAJOR = reg s Cpu.ADDR_VERSION_NUM_MAJOR ∧
+      reg s' Cpu.ADDR_VERSION_NUM_MINOR = reg s Cpu.ADDR_VERSION_NUM_MINOR := by
+  have hk := clearResult_keeps_regs s
+  simp only [List.mem_cons, List.mem_nil_iff, or_false, forall_eq_or_imp, forall_eq] at hk
+  obtain ⟨k1, k2, k3, k91, k92, k93, k94⟩ := hk
+  obtain ⟨c1, c2, c3, c4, c5, c6, c7, c8, c9, c10, c11, _, _⟩ := clearResult_kept s
+  refine ⟨clearResult s, clear_eq s h, c1, c2, c3, c4, c5, c6, c7, c8, c9, c10, c11, ?_, ?_, ?_, ?_⟩
+  · intro seg hseg
+    rcases seg_cases hseg with h0 | h0 <;> subst h0
+    · simp only [Obs.soundSpeed, Obs.numFoci, reg, Cpu.ADDR_STM_SOUND_SPEED0, Cpu.ADDR_STM_NUM_FOCI0, Nat.add_zero, k91, k93, and_self]
+    · simp only [Obs.soundSpeed, Obs.numFoci, reg, Cpu.ADDR_STM_SOUND_SPEED0, Cpu.ADDR_STM_NUM_FOCI0, Nat.reduceAdd, k92, k94, and_self]
+  · simp only [Obs.fpgaStateReg, reg, Cpu.ADDR_FPGA_STATE, k1]
+  · simp only [reg, Cpu.ADDR_VERSION_NUM_MAJOR, k2]
+  · simp only [reg, Cpu.ADDR_VERSION_NUM_MINOR, k3]
+
+/-- the time-dependent part: `Clear` keeps the swap chains' `curIdx` (it is only recomputed by
+`update_with_sys_time`), so `current_*_idx` right after `Clear` is stale; after the NEXT clock update it is
+a function of the time alone — the same function for every prior state, hence equal to the power-on
+device's. -/
+theorem clear_then_update (s : State) (h : WF s) (t : Nat) :
+    ∃ s' s'', Fw.clear s #[] = .ok (s', Cpu.NO_ERR) ∧ updateWithSysTime s' t = .ok s'' ∧
+      Obs.currentModIdx s'' = ((fpgaSysTime t >>> 9) / 0xFFFF) % 2 ∧ Obs.currentStmIdx s'' = 0 ∧
+      Obs.currentModSeg s'' = 0 ∧ Obs.currentStmSeg s'' = 0 ∧ s''.dcSysTime = t := by
+  have w := wf_clearResult s h
+  obtain ⟨s'', e, r⟩ := update_after_clear _ (cleared_clearResult s h) w.modSwap w.stmSwap t
+  exact ⟨clearResult s, s'', clear_eq s h, e, r⟩
+
+/-- the power-on state itself is well-formed (the invariant is not vacuous and `Fw.new` never fails for a
+real device size) -/
+theorem new_wf (numTr now : Nat) (hn : numTr ≤ 249) :
+    ∃ p, Fw.new numTr now = .ok p ∧ WF p ∧ PowerOnObs p :=
+  ⟨_, new_eq numTr now hn, wf_clearResult _ (wf_preClear numTr now hn),
+    powerOnObs_of_cleared (cleared_clearResult _ (wf_preClear numTr now hn)) hn⟩
+
+/-! ## second layer: frame conditions of the single-frame configuration handlers
+
+Each theorem has the shape: the handler never panics on a well-formed state, the result is well-formed,
+the result state equals the old one except for the listed fields (`s' = { s with … }` — in particular both
+swap chains and the modulation / STM memories are untouched by all nine handlers; the pulse-width table
+only by `configPwe`, the phase-correction memory only by `phaseCorrOp`), and of the register file only the
+listed addresses can change. -/
+
+/-- `config_debug` (GPIOOutputs): only registers DEBUG_VALUE*_* (240…255) and CTL_FLAG (0).  This is the
+statement F12 violated (it raised MOD_SET and thereby touched the modulation swap chain). -/
+theorem frame_configDebug (s : State) (d : Array Nat) (h : WF s) :
+    ∃ s', configDebug s d = .ok (s', Cpu.NO_ERR) ∧ WF s' ∧ s' = { s with ctl := s'.ctl } ∧
+      ∀ j, j ≠ 0 → ¬(240 ≤ j ∧ j < 256) → rd s'.ctl j = rd s.ctl j := by
+  refine ⟨_, configDebug_eq s d h, wf_ctl s _ h (by simp [h.ctl]), rfl, ?_⟩
+  intro j h0 hj
+  simp only [rd_set, rd_writeLoop]
+  have : ¬ (240 ≤ j ∧ j < 240 + 16 ∧ j < s.ctl.size) := by omega
+  simp [h0, this]
+
+/-- `synchronize`: only the `synchronized` flag and CTL_FLAG -/
+theorem frame_synchronize (s : State) (d : Array Nat) (h : WF s) :
+    ∃ s', synchronize s d = .ok (s', Cpu.NO_ERR) ∧ WF s' ∧ s'.synchronized = true ∧
+      s' = { s with ctl := s'.ctl, synchronized := s'.synchronized } ∧
+      ∀ j, j ≠ 0 → rd s'.ctl j = rd s.ctl j := by
+  refine ⟨_, synchronize_eq s d h, ?_, rfl, rfl, ?_⟩
+  · exact wf_ctl { s with synchronized := true } _ { h with } (by simp [h.ctl])
+  · intro j h0
+    simp [rd_set, h0]
+
+/-- `config_pwe`: only the pulse-width table -/
+theorem frame_configPwe (s : State) (d : Array Nat) (h : WF s) :
+    ∃ s', configPwe s d = .ok (s', Cpu.NO_ERR) ∧ WF s' ∧ s' = { s with pwe := s'.pwe } ∧
+      ∀ i, i < 256 → rd s'.pwe i = u16at d (FwLayout.Pwe_size + 2 * i) := by
+  refine ⟨_, configPwe_eq s d h, { h with pwe := by simp [h.pwe] }, rfl, ?_⟩
+  intro i hi
+  simp only [rd_writeLoop, rd_wordsAt, h.pwe]
+  simp [hi, Nat.mod_eq_of_lt (u16at_lt _ _), FwLayout.Pwe_size]
+
+/-- `phase_corr`: only the phase-correction memory -/
+theorem frame_phaseCorrOp (s : State) (d : Array Nat) (h : WF s) :
+    ∃ s', phaseCorrOp s d = .ok (s', Cpu.NO_ERR) ∧ WF s' ∧ s' = { s with phaseCorr := s'.phaseCorr } ∧
+      (∀ i, i < 125 → rd s'.phaseCorr i = u16at d (FwLayout.PhaseCorr_size + 2 * i)) ∧
+      (∀ i, 125 ≤ i → rd s'.phaseCorr i = rd s.phaseCorr i) := by
+  refine ⟨_, phaseCorrOp_eq s d h, { h with phaseCorr := by simp [h.phaseCorr] }, rfl, ?_, ?_⟩
+  · intro i hi
+    simp only [rd_writeLoop, rd_wordsAt, h.phaseCorr]
+    have : i < 128 := by omega
+    simp [hi, this, Nat.mod_eq_of_lt (u16at_lt _ _), FwLayout.PhaseCorr_size]
+  · intro i hi
+    simp only [rd_writeLoop]
+    simp
+    omega
+
+/-- `config_silencer`: only the silencer registers (64…68), CTL_FLAG, and the CPU's guard copies
+`strict / minDivI / minDivP`; a rejected request (`ERR_INVALID_SILENCER_SETTING`) changes nothing at all -/
+theorem frame_configSilencer (s : State) (d : Array Nat) (h : WF s) :
+    ∃ s' a, configSilencer s d = .ok (s', a) ∧ WF s' ∧
+      s' = { s with ctl := s'.ctl, strict := s'.strict, minDivI := s'.minDivI, minDivP := s'.minDivP } ∧
+      (∀ j, j ≠ 0 → ¬(64 ≤ j ∧ j ≤ 68) → rd s'.ctl j = rd s.ctl j) ∧
+      (a ≠ Cpu.NO_ERR → s' = s) := by
+  rw [configSilencer_eq s d h]
+  split
+  · refine ⟨_, _, rfl, wf_ctl s _ h (by simp [h.ctl]), rfl, ?_, fun hne => absurd rfl hne⟩
+    intro j h0 hj
+    have e1 : j ≠ 64 := by omega
+    have e2 : j ≠ 65 := by omega
+    have e3 : j ≠ 66 := by omega
+    simp [rd_set, h0, e1, e2, e3]
+  · split
+    · exact ⟨_, _, rfl, h, rfl, fun _ _ _ => rfl, fun _ => rfl⟩
+    · refine ⟨_, _, rfl, ?_, rfl, ?_, fun hne => absurd rfl hne⟩
+      · exact wf_silencer_upd s _ _ _ _ h (by simp [h.ctl])
+      · intro j h0 hj
+        have e1 : j ≠ 64 := by omega
+        have e2 : j ≠ 67 := by omega
+        have e3 : j ≠ 68 := by omega
+        simp [rd_set, h0, e1, e2, e3]
+
+/-- `configure_force_fan`: only the CPU flag word (bit 13), which keeps its invariant -/
+theorem frame_configureForceFan (s : State) (d : Array Nat) (h : WF s) :
+    ∃ s', configureForceFan s d = .ok (s', Cpu.NO_ERR) ∧ WF s' ∧ s' = { s with flagsInternal := s'.flagsInternal } ∧
+      ((u8at d FwLayout.ForceFan_value_off ≠ 0 ∧ s'.flagsInternal = s.flagsInternal ||| Cpu.CTL_FLAG_FORCE_FAN) ∨
+       (u8at d FwLayout.ForceFan_value_off = 0 ∧ s'.flagsInternal = s.flagsInternal &&& (65535 - Cpu.CTL_FLAG_FORCE_FAN))) := by
+  obtain ⟨f', e, hf, hc⟩ := configureForceFan_frame s d h.flags
+  exact ⟨_, e, { h with flags := hf }, rfl, hc⟩
+
+/-- `emulate_gpio_in`: only the CPU flag word (bits 8…11) -/
+theorem frame_emulateGpioIn (s : State) (d : Array Nat) (h : WF s) :
+    ∃ s', emulateGpioIn s d = .ok (s', Cpu.NO_ERR) ∧ WF s' ∧ s' = { s with flagsInternal := s'.flagsInternal } :=
+  ⟨_, emulateGpioIn_eq s d, { h with flags := flagsOK_gpioIn _ _ h.flags }, rfl⟩
+
+/-- `configure_reads_fpga_state`: only the reads flag -/
+theorem frame_configureReadsFpgaState (s : State) (d : Array Nat) (h : WF s) :
+    ∃ s', configureReadsFpgaState s d = .ok (s', Cpu.NO_ERR) ∧ WF s' ∧
+      s' = { s with readsFpgaState := s'.readsFpgaState } ∧
+      s'.readsFpgaState = (u8at d FwLayout.ReadsFPGAState_value_off ≠ 0) :=
+  ⟨_, rfl, { h with }, rfl, by simp⟩
+
+/-- `cpu_gpio_out`: only port A -/
+theorem frame_cpuGpioOut (s : State) (d : Array Nat) (h : WF s) :
+    ∃ s', cpuGpioOut s d = .ok (s', Cpu.NO_ERR) ∧ WF s' ∧ s' = { s with portA := s'.portA } ∧
+      s'.portA = u8at d FwLayout.CpuGPIOOut_pa_podr_off :=
+  ⟨_, rfl, { h with }, rfl, rfl⟩
+
+/-! ## second layer: history independence of a modulation write -/
+
+/-- **BEGIN resets the cursor** (`begin_resets_cursor`, modulation): whatever the prior state — any old
+cursor value, any old write-page / write-segment register (the F1 defect was a stale page register) — a
+BEGIN frame of `write_mod` either is rejected by one of the two validations, and then the state is the old
+one with the cursor reset to 0, or it leaves the cursor at exactly the number of bytes this frame carried,
+the write-page register at 0 and the write-segment register at the frame's segment. -/
+theorem begin_resets_cursor_mod (s s' : State) (d : Array Nat) (a : Nat) (h : WF s)
+    (hB : hasFlag (u8at d FwLayout.ModulationHead_flag_off) Cpu.MODULATION_FLAG_BEGIN = true)
+    (hr : writeMod s d = .ok (s', a)) :
+    (a ≠ Cpu.NO_ERR ∧ s' = { s with modCycle := 0 }) ∨
+    (s'.modCycle = u8at d FwLayout.ModulationHead_size_off ∧ reg s' Cpu.ADDR_MOD_MEM_WR_PAGE = 0 ∧
+      reg s' Cpu.ADDR_MOD_MEM_WR_SEGMENT = modSegOf d) := by
+  cases hv1 : validateTransitionMode s.modSegment (modSegOf d) (u16at d FwLayout.ModulationHead_rep_off)
+        (u8at d FwLayout.ModulationHead_transition_mode_off)
+  · cases hv2 : validateSilencerSettings s (sel s.stmDiv s.stmSegment) (u16at d FwLayout.ModulationHead_freq_div_off)
+    · right
+      rw [writeMod_begin s d h.toSized hB hv1 hv2] at hr
+      obtain ⟨e1, e2, e3, _⟩ := modTail_frame _ _ _ _ (wf_modBeginRes s d h) hr
+      have hseg := modSegOf_le d
+      refine ⟨by rw [e1]; rfl, ?_, ?_⟩
+      · unfold reg
+        rw [e3 _ (by decide) (by decide) (by decide) (by simp only [Cpu.ADDR_MOD_MEM_WR_PAGE, Cpu.ADDR_MOD_CYCLE0]; omega)]
+        simp [modBeginRes, rd_set, h.ctl, Cpu.ADDR_MOD_MEM_WR_PAGE]
+      · unfold reg
+        rw [e3 _ (by decide) (by decide) (by decide) (by simp only [Cpu.ADDR_MOD_MEM_WR_SEGMENT, Cpu.ADDR_MOD_CYCLE0]; omega)]
+        simp [modBeginRes, rd_set, h.ctl, Cpu.ADDR_MOD_MEM_WR_PAGE, Cpu.ADDR_MOD_MEM_WR_SEGMENT]
+        omega
+    · left
+      rw [writeMod_rej2 s d hB hv1 hv2] at hr
+      simp only [Except.ok.injEq, Prod.mk.injEq] at hr
+      exact ⟨by rw [← hr.2]; decide, hr.1.symm⟩
+  · left
+    rw [writeMod_rej1 s d hB hv1] at hr
+    simp only [Except.ok.injEq, Prod.mk.injEq] at hr
+    exact ⟨by rw [← hr.2]; decide, hr.1.symm⟩
+
+/-- **BEGIN resets the cursor** (`begin_resets_cursor`, FociSTM): a BEGIN frame of `write_foci_stm` addressed
+to a real segment, whose points fit the first page (`send_num · num_foci < 4096`; the SDK sends at most
+≈ 77 points of ≤ 8 foci per frame), is either rejected by a validation — then the state is untouched — or
+leaves the write cursor `stm_write` at exactly the number of points this frame carried, the latched
+`num_foci` at the frame's, the write-page register at 0 and the write-segment register at the frame's segment,
+whatever cursor / page / segment the prior history left behind.
+
+NOT PROVED (`begin_resets_cursor`, GainSTM): the same statement for `write_gain_stm`
+(`sel s'.stmCycle seg = number of patterns in the frame ∧ reg s' STM_MEM_WR_PAGE = 0 ∧ reg s' STM_MEM_WR_SEGMENT = seg`
+for an accepted BEGIN frame with a valid mode byte).  The header writes are the same shape as here; what is
+missing is the case analysis over the 3 modes × up to 4 patterns per frame of the pattern-copy part. -/
+theorem begin_resets_cursor_foci (s s' : State) (d : Array Nat) (a : Nat) (h : WF s)
+    (hB : hasFlag (u8at d FwLayout.FociSTMSubseq_flag_off) Cpu.FOCI_STM_FLAG_BEGIN = true)
+    (hseg : u8at d FwLayout.FociSTMSubseq_segment_off ≤ 1)
+    (hsize : u8at d FwLayout.FociSTMSubseq_send_num_off * u8at d FwLayout.FociSTMHead_num_foci_off < 4096)
+    (hr : writeFociStm s d = .ok (s', a)) :
+    (a ≠ Cpu.NO_ERR ∧ s' = s) ∨
+    (s'.stmWrite = u8at d FwLayout.FociSTMSubseq_send_num_off * u8at d FwLayout.FociSTMHead_num_foci_off ∧
+      s'.numFoci = u8at d FwLayout.FociSTMHead_num_foci_off ∧
+      reg s' Cpu.ADDR_STM_MEM_WR_PAGE = 0 ∧ reg s' Cpu.ADDR_STM_MEM_WR_SEGMENT = u8at d FwLayout.FociSTMSubseq_segment_off) :=
+  foci_begin_cursor s s' d a h hB hseg hsize hr
+
+/-- **single-frame modulation: read-back is a function of the frame alone.**  For EVERY well-formed prior
+state, an accepted BEGIN|END frame carrying `n ≥ 1` samples leaves, in the addressed segment, exactly the
+frame's divider, loop count, `n` as cycle and the frame's `n` sample bytes as buffer. -/
+theorem mod_single_frame_readback (s s' : State) (d : Array Nat) (h : WF s)
+    (hB : hasFlag (u8at d FwLayout.ModulationHead_flag_off) Cpu.MODULATION_FLAG_BEGIN = true)
+    (hE : hasFlag (u8at d FwLayout.ModulationHead_flag_off) Cpu.MODULATION_FLAG_END = true)
+    (hn : 1 ≤ u8at d FwLayout.ModulationHead_size_off)
+    (hr : writeMod s d = .ok (s', Cpu.NO_ERR)) :
+    Obs.modDiv s' (modSegOf d) = u16at d FwLayout.ModulationHead_freq_div_off ∧
+    Obs.modRep s' (modSegOf d) = u16at d FwLayout.ModulationHead_rep_off ∧
+    Obs.modCycle s' (modSegOf d) = u8at d FwLayout.ModulationHead_size_off ∧
+    Obs.modBuffer s' (modSegOf d) = .ok ((Array.range (u8at d FwLayout.ModulationHead_size_off)).map
+      fun i => u8at d (FwLayout.ModulationHead_size + i)) := by
+  obtain ⟨hv1, hv2⟩ := writeMod_accept_begin s s' d hB hr
+  exact mod_single_frame_obs s s' d _ h hB hE hn hv1 hv2 hr
+
+/-- **history independence** (`mod_history_independent_single_frame`): two arbitrary well-formed devices
+that both accept the same single-frame modulation hold the same buffer, divider, loop count and cycle in
+the addressed segment afterwards. -/
+theorem mod_history_independent_single_frame (s1 s2 s1' s2' : State) (d : Array Nat) (h1 : WF s1) (h2 : WF s2)
+    (hB : hasFlag (u8at d FwLayout.ModulationHead_flag_off) Cpu.MODULATION_FLAG_BEGIN = true)
+    (hE : hasFlag (u8at d FwLayout.ModulationHead_flag_off) Cpu.MODULATION_FLAG_END = true)
+    (hn : 1 ≤ u8at d FwLayout.ModulationHead_size_off)
+    (r1 : writeMod s1 d = .ok (s1', Cpu.NO_ERR)) (r2 : writeMod s2 d = .ok (s2', Cpu.NO_ERR)) :
+    Obs.modBuffer s1' (modSegOf d) = Obs.modBuffer s2' (modSegOf d) ∧
+    Obs.modDiv s1' (modSegOf d) = Obs.modDiv s2' (modSegOf d) ∧
+    Obs.modRep s1' (modSegOf d) = Obs.modRep s2' (modSegOf d) ∧
+    Obs.modCycle s1' (modSegOf d) = Obs.modCycle s2' (modSegOf d) := by
+  obtain ⟨a1, a2, a3, a4⟩ := mod_single_frame_readback s1 s1' d h1 hB hE hn r1
+  obtain ⟨b1, b2, b3, b4⟩ := mod_single_frame_readback s2 s2' d h2 hB hE hn r2
+  exact ⟨by rw [a4, b4], by rw [a1, b1], by rw [a2, b2], by rw [a3, b3]⟩
+
+
+/-! ## second layer: the SDK's defaults are a fixpoint of the power-on state -/
+
+/-- **`defaults_are_fixpoint`**: on the power-on device (`Fw.new`, any transducer count ≤ 249, any clock),
+`ecat_recv` of the frame the driver model packs from a zeroed transmit buffer for each of the five default
+datagrams — silencer (10, 40, strict), the default pulse-width table `Gen.Tables.drvAsin`, zero phase
+correction, modulation `[0xFF, 0xFF]` with divider 0xFFFF / infinite loop to segment 0 (Immediate), null
+gain to segment 0 (Immediate) — is accepted (ack = message id 1, the operation is done after one frame)
+and leaves the device in a state with all power-on observables (`PowerOnObsQ` = `PowerOnObs` except that
+`Obs.modTransition` may now read Immediate: the modulation frame records its request in the transition-mode
+register; the gain frame writes SyncIdx, so the STM side is literally unchanged). -/
+theorem defaults_are_fixpoint (numTr now : Nat) (hn : numTr ≤ 249) :
+    ∃ p, Fw.new numTr now = .ok p ∧ PowerOnObs p ∧ p.numTr = numTr ∧
+      (∃ op t sz p', Wire.packOp (Wire.Op.ofDg (.silencerSteps 10 40 true)) numTr {} = .ok (op, t, sz) ∧
+        op.done = true ∧ ecatRecv p t.frame = .ok p' ∧ p'.ack = 1 ∧ p'.numTr = numTr ∧ PowerOnObsQ p') ∧
+      (∃ op t sz p', Wire.packOp (Wire.Op.ofDg (.pwe ((Array.range 256).map Tables.drvAsin))) numTr {} = .ok (op, t, sz) ∧
+        op.done = true ∧ ecatRecv p t.frame = .ok p' ∧ p'.ack = 1 ∧ p'.numTr = numTr ∧ PowerOnObsQ p') ∧
+      (∃ op t sz p', Wire.packOp (Wire.Op.ofDg (.phaseCorr (Array.replicate numTr 0))) numTr {} = .ok (op, t, sz) ∧
+        op.done = true ∧ ecatRecv p t.frame = .ok p' ∧ p'.ack = 1 ∧ p'.numTr = numTr ∧ PowerOnObsQ p') ∧
+      (∃ op t sz p', Wire.packOp (Wire.Op.ofDg (.modulation 0 (some (255, 0)) 0xFFFF 0xFFFF #[0xFF, 0xFF])) numTr {} = .ok (op, t, sz) ∧
+        op.done = true ∧ ecatRecv p t.frame = .ok p' ∧ p'.ack = 1 ∧ p'.numTr = numTr ∧ PowerOnObsQ p' ∧
+        Obs.modTransition p' = .ok .immediate) ∧
+      (∃ op t sz p', Wire.packOp (Wire.Op.ofDg (.gain 0 (some (255, 0)) (Array.replicate numTr 0))) numTr {} = .ok (op, t, sz) ∧
+        op.done = true ∧ ecatRecv p t.frame = .ok p' ∧ p'.ack = 1 ∧ p'.numTr = numTr ∧ PowerOnObsQ p') := by
+  have hp := wf_preClear numTr now hn
+  have cl := cleared_clearResult _ hp
+  have w := wf_clearResult _ hp
+  have hnum : (clearResult (preClear numTr now)).numTr = numTr := (clearResult_kept _).2.2.2.2.2.2.2.2.2.2.2.1
+  have hid : (clearResult (preClear numTr now)).lastMsgId ≠ 1 := by
+    rw [(clearResult_kept _).2.2.2.2.2.2.2.2.2.1]; show (255 : Nat) ≠ 1; decide
+  have c := dflt_of_cleared cl w
+  refine ⟨_, new_eq numTr now hn, powerOnObs_of_cleared cl (by rw [hnum]; exact hn), hnum, ?_, ?_, ?_, ?_, ?_⟩
+  · obtain ⟨op, t, sz, s', e, d, r, c', a⟩ := dflt_frame_silencer _ numTr c hid
+    exact ⟨op, t, sz, s', e, d, r, a, by rw [c'.numTrEq, hnum], powerOnObsQ_of_dflt c'⟩
+  · obtain ⟨op, t, sz, s', e, d, r, c', a⟩ := dflt_frame_pwe _ numTr c hid
+    exact ⟨op, t, sz, s', e, d, r, a, by rw [c'.numTrEq, hnum], powerOnObsQ_of_dflt c'⟩
+  · obtain ⟨op, t, sz, s', e, d, r, c', a⟩ := dflt_frame_phaseCorr _ numTr c hid
+    exact ⟨op, t, sz, s', e, d, r, a, by rw [c'.numTrEq, hnum], powerOnObsQ_of_dflt c'⟩
+  · obtain ⟨op, t, sz, s', e, d, r, c', a, m⟩ := dflt_frame_mod _ numTr c hid
+    exact ⟨op, t, sz, s', e, d, r, a, by rw [c'.numTrEq, hnum], powerOnObsQ_of_dflt c', m⟩
+  · have := dflt_frame_gain _ c hid
+    rw [hnum] at this
+    obtain ⟨op, t, sz, s', e, d, r, c', a⟩ := this
+    exact ⟨op, t, sz, s', e, d, r, a, c'.numTrEq, powerOnObsQ_of_dflt c'⟩
+
+/-- the same from ANY well-formed device right after `Clear` (message id 1 must be fresh): so "Clear, then
+the defaults" and "power-on" are observably the same device. -/
+theorem defaults_after_clear (s : State) (h : WF s) (hid : s.lastMsgId ≠ 1) :
+    ∃ s0, Fw.clear s #[] = .ok (s0, Cpu.NO_ERR) ∧
+      (∃ op t sz s', Wire.packOp (Wire.Op.ofDg (.silencerSteps 10 40 true)) s.numTr {} = .ok (op, t, sz) ∧
+        ecatRecv s0 t.frame = .ok s' ∧ s'.ack = 1 ∧ PowerOnObsQ s') ∧
+      (∃ op t sz s', Wire.packOp (Wire.Op.ofDg (.pwe ((Array.range 256).map Tables.drvAsin))) s.numTr {} = .ok (op, t, sz) ∧
+        ecatRecv s0 t.frame = .ok s' ∧ s'.ack = 1 ∧ PowerOnObsQ s') ∧
+      (∃ op t sz s', Wire.packOp (Wire.Op.ofDg (.phaseCorr (Array.replicate s.numTr 0))) s.numTr {} = .ok (op, t, sz) ∧
+        ecatRecv s0 t.frame = .ok s' ∧ s'.ack = 1 ∧ PowerOnObsQ s') ∧
+      (∃ op t sz s', Wire.packOp (Wire.Op.ofDg (.modulation 0 (some (255, 0)) 0xFFFF 0xFFFF #[0xFF, 0xFF])) s.numTr {} = .ok (op, t, sz) ∧
+        ecatRecv s0 t.frame = .ok s' ∧ s'.ack = 1 ∧ PowerOnObsQ s') ∧
+      (∃ op t sz s', Wire.packOp (Wire.Op.ofDg (.gain 0 (some (255, 0)) (Array.replicate s.numTr 0))) s.numTr {} = .ok (op, t, sz) ∧
+        ecatRecv s0 t.frame = .ok s' ∧ s'.ack = 1 ∧ PowerOnObsQ s') := by
+  have cl := cleared_clearResult s h
+  have w := wf_clearResult s h
+  have hnum : (clearResult s).numTr = s.numTr := (clearResult_kept _).2.2.2.2.2.2.2.2.2.2.2.1
+  have hid' : (clearResult s).lastMsgId ≠ 1 := by rw [(clearResult_kept _).2.2.2.2.2.2.2.2.2.1]; exact hid
+  have c := dflt_of_cleared cl w
+  refine ⟨_, clear_eq s h, ?_, ?_, ?_, ?_, ?_⟩
+  · obtain ⟨op, t, sz, s', e, d, r, c', a⟩ := dflt_frame_silencer _ s.numTr c hid'
+    exact ⟨op, t, sz, s', e, r, a, powerOnObsQ_of_dflt c'⟩
+  · obtain ⟨op, t, sz, s', e, d, r, c', a⟩ := dflt_frame_pwe _ s.numTr c hid'
+    exact ⟨op, t, sz, s', e, r, a, powerOnObsQ_of_dflt c'⟩
+  · obtain ⟨op, t, sz, s', e, d, r, c', a⟩ := dflt_frame_phaseCorr _ s.numTr c hid'
+    exact ⟨op, t, sz, s', e, r, a, powerOnObsQ_of_dflt c'⟩
+  · obtain ⟨op, t, sz, s', e, d, r, c', a, _⟩ := dflt_frame_mod _ s.numTr c hid'
+    exact ⟨op, t, sz, s', e, r, a, powerOnObsQ_of_dflt c'⟩
+  · have := dflt_frame_gain _ c hid'
+    rw [hnum] at this
+    obtain ⟨op, t, sz, s', e, d, r, c', a⟩ := this
+    exact ⟨op, t, sz, s', e, r, a, powerOnObsQ_of_dflt c'⟩
+
+/-- spelled out: a state with the power-on observables up to the modulation transition request (`PowerOnObsQ`,
+what every default datagram leaves) agrees with the power-on state on every observable of `clear_resets`
+other than `Obs.modTransition`. -/
+theorem defaults_obs_unchanged (p p' : State) (a : PowerOnObs p) (b : PowerOnObsQ p') (hn : p'.numTr = p.numTr) :
+    (∀ seg, seg ≤ 1 →
+      Obs.modBuffer p' seg = Obs.modBuffer p seg ∧ Obs.modDiv p' seg = Obs.modDiv p seg ∧
+      Obs.modCycle p' seg = Obs.modCycle p seg ∧ Obs.modRep p' seg = Obs.modRep p seg ∧
+      Obs.isStmGainMode p' seg = Obs.isStmGainMode p seg ∧ Obs.stmDiv p' seg = Obs.stmDiv p seg ∧
+      Obs.stmCycle p' seg = Obs.stmCycle p seg ∧ Obs.stmRep p' seg = Obs.stmRep p seg ∧
+      Obs.drivesAt p' seg 0 = Obs.drivesAt p seg 0) ∧
+    Obs.reqModSeg p' = Obs.reqModSeg p ∧ Obs.reqStmSeg p' = Obs.reqStmSeg p ∧
+    Obs.stmTransition p' = Obs.stmTransition p ∧
+    Obs.silencerUpdateRate p' = Obs.silencerUpdateRate p ∧
+    Obs.silencerCompletionSteps p' = Obs.silencerCompletionSteps p ∧
+    Obs.silencerFixedUpdateRateMode p' = Obs.silencerFixedUpdateRateMode p ∧ p'.strict = p.strict ∧
+    Obs.pweTable p' = Obs.pweTable p ∧ Obs.phaseCorrection p' = Obs.phaseCorrection p ∧
+    Obs.debugTypes p' = Obs.debugTypes p ∧ Obs.debugValues p' = Obs.debugValues p ∧
+    Obs.isForceFan p' = Obs.isForceFan p ∧ p'.readsFpgaState = p.readsFpgaState ∧ p'.portA = p.portA ∧
+    Obs.currentModSeg p' = Obs.currentModSeg p ∧ Obs.currentStmSeg p' = Obs.currentStmSeg p ∧
+    p'.modSwap.state = p.modSwap.state ∧ p'.modSwap.stop = p.modSwap.stop ∧
+    p'.stmSwap.state = p.stmSwap.state ∧ p'.stmSwap.stop = p.stmSwap.stop := by
+  refine ⟨?_, by rw [a.reqModSeg, b.reqModSeg], by rw [a.reqStmSeg, b.reqStmSeg],
+    by rw [a.stmTransition, b.stmTransition], by rw [a.silRate, b.silRate], by rw [a.silSteps, b.silSteps],
+    by rw [a.silFixed, b.silFixed], by rw [a.strict, b.strict], by rw [a.pwe, b.pwe],
+    by rw [a.phaseCorr, b.phaseCorr, hn], by rw [a.debugTypes, b.debugTypes], by rw [a.debugValues, b.debugValues],
+    by rw [a.forceFan, b.forceFan], by rw [a.reads, b.reads], by rw [a.portA, b.portA],
+    by rw [a.curMod, b.curMod], by rw [a.curStm, b.curStm],
+    by rw [a.modLoop.1, b.modLoop.1], by rw [a.modLoop.2, b.modLoop.2],
+    by rw [a.stmLoop.1, b.stmLoop.1], by rw [a.stmLoop.2, b.stmLoop.2]⟩
+  intro seg hseg
+  exact ⟨by rw [a.modBuffer seg hseg, b.modBuffer seg hseg], by rw [a.modDiv seg hseg, b.modDiv seg hseg],
+    by rw [a.modCycle seg hseg, b.modCycle seg hseg], by rw [a.modRep seg hseg, b.modRep seg hseg],
+    by rw [a.stmGain seg hseg, b.stmGain seg hseg], by rw [a.stmDiv seg hseg, b.stmDiv seg hseg],
+    by rw [a.stmCycle seg hseg, b.stmCycle seg hseg], by rw [a.stmRep seg hseg, b.stmRep seg hseg],
+    by rw [a.drives seg hseg, b.drives seg hseg, hn]⟩
+
+/-! ## non-vacuity -/
+
+/-- a concrete, non-trivial state satisfying `WF`: mid-history values everywhere the invariant speaks -/
+example : WF { numTr := 249, portA := 5, readsFpgaState := true, flagsInternal := 0x2100, modCycle := 40000,
+               modSegment := 1, stmSegment := 1, strict := false,
+               modSwap := { cur := 1, req := 1, state := .finiteLoop, rep := 3, freqDiv := (5120, 10), cycle := (100, 3), stop := true },
+               stmSwap := { cur := 1, extMode := true, state := .infiniteLoop, freqDiv := (40, 40), cycle := (2, 7) } } := by
+  exact { ctl := by simp, phaseCorr := by simp, pwe := by simp, modMem0 := by simp, modMem1 := by simp,
+          stmMem0 := by simp, stmMem1 := by simp, numTr := by decide, modSwap := by simp [SwapWF],
+          stmSwap := by simp [SwapWF], flags := ⟨by decide, by decide⟩ }
+
+/-- the hypotheses of the modulation theorems are satisfiable: the default-constructed device accepts a
+two-sample single-frame modulation (BEGIN|END, no transition, segment 0, divider 0xFFFF) -/
+example : ∃ (s s' : State) (d : Array Nat), WF s ∧
+    hasFlag (u8at d FwLayout.ModulationHead_flag_off) Cpu.MODULATION_FLAG_BEGIN = true ∧
+    hasFlag (u8at d FwLayout.ModulationHead_flag_off) Cpu.MODULATION_FLAG_END = true ∧
+    1 ≤ u8at d FwLayout.ModulationHead_size_off ∧ writeMod s d = .ok (s', Cpu.NO_ERR) := by
+  have hw : WF ({} : State) := by
+    exact { ctl := by simp, phaseCorr := by simp, pwe := by simp, modMem0 := by simp, modMem1 := by simp,
+            stmMem0 := by simp, stmMem1 := by simp, numTr := by decide, modSwap := by simp [SwapWF],
+            stmSwap := by simp [SwapWF], flags := ⟨by decide, by decide⟩ }
+  refine ⟨{}, modTailState (modBeginRes {} #[0x10, 0x03, 2, 0xFE, 0xFF, 0xFF, 0xFF, 0xFF, 0, 0, 0, 0, 0, 0, 0, 0, 0xAA, 0xBB]) #[0x10, 0x03, 2, 0xFE, 0xFF, 0xFF, 0xFF, 0xFF, 0, 0, 0, 0, 0, 0, 0, 0, 0xAA, 0xBB],
+    #[0x10, 0x03, 2, 0xFE, 0xFF, 0xFF, 0xFF, 0xFF, 0, 0, 0, 0, 0, 0, 0, 0, 0xAA, 0xBB], hw,
+    by decide, by decide, by decide, ?_⟩
+  rw [writeMod_begin _ _ hw.toSized (by decide) (by decide) (by decide), modTail_eq]
+  have e1 : hasFlag (u8at #[0x10, 0x03, 2, 0xFE, 0xFF, 0xFF, 0xFF, 0xFF, 0, 0, 0, 0, 0, 0, 0, 0, 0xAA, 0xBB]
+      FwLayout.ModulationHead_flag_off) Cpu.MODULATION_FLAG_END = true := by decide
+  have e2 : hasFlag (u8at #[0x10, 0x03, 2, 0xFE, 0xFF, 0xFF, 0xFF, 0xFF, 0, 0, 0, 0, 0, 0, 0, 0, 0xAA, 0xBB]
+      FwLayout.ModulationHead_flag_off) Cpu.MODULATION_FLAG_UPDATE = false := by decide
+  simp only [e1, e2, if_true, Bool.false_eq_true, if_false]
 
 end Autd3.C02
